@@ -102,7 +102,30 @@ def polygon_in_box(rng, t0, t1, f0, f1, holes=None):
     return {"type": "Polygon", "coordinates": [_ring(g) for g in fitted]}
 
 
+def _excursion_line(rng, t0, t1, f0, f1):
+    """A simple (non-self-intersecting) line that is NOT monotone in time: frequencies are strictly
+    monotone, times wander, and the time extremes are reached at INTERIOR vertices."""
+    n = rng.randint(4, 7)
+    fs = sorted(rng.random() for _ in range(n - 2))
+    fs = [0.0] + [max(f, 1e-3 * (i + 1)) for i, f in enumerate(fs)] + [1.0]
+    for i in range(1, n):
+        if fs[i] <= fs[i - 1]:
+            fs[i] = fs[i - 1] + 1e-4
+    top = fs[-1]
+    fs = [f / top for f in fs]
+    if rng.random() < 0.5:
+        fs = [1 - f for f in fs]
+    ts = [rng.uniform(0.2, 0.8) for _ in range(n)]
+    i_min, i_max = rng.sample(range(1, n - 1), 2) if n >= 4 else (1, 1)
+    ts[i_min], ts[i_max] = 0.0, 1.0
+    a, b = sorted((rng.uniform(0.1, 0.45), rng.uniform(0.55, 0.9)))
+    ts[0], ts[-1] = a, b     # first strictly before last: already in normal form
+    return [[t0 + t * (t1 - t0), f0 + f * (f1 - f0)] for t, f in zip(ts, fs)]
+
+
 def line_in_box(rng, t0, t1, f0, f1, n=None):
+    if n is None and t1 > t0 and f1 > f0 and rng.random() < 0.3:
+        return _excursion_line(rng, t0, t1, f0, f1)
     n = n or rng.randint(2, 7)
     ts = sorted(rng.random() for _ in range(n - 2))
     ts = [0.0] + ts + [1.0]
